@@ -323,8 +323,22 @@ func findOrCreateMatchFileIfOverlaps(order *list.List, e1, e2 *HostsMapEntry) {
 		if el1 == nil {
 			el1 = findOrCreateMatchFile(order, e1)
 		}
-		e2._upper = el1
+		// e2 must be looked up after every longer path it overlaps with, so
+		// the element that is further in the list is the one to be preserved
+		e2._upper = laterElement(e2._upper, el1)
 	}
+}
+
+func laterElement(el1, el2 *list.Element) *list.Element {
+	for e := el1; e != nil; e = e.Next() {
+		if e == el2 {
+			return el2
+		}
+	}
+	if el1 == nil {
+		return el2
+	}
+	return el1
 }
 
 func findOrCreateMatchFile(order *list.List, e1 *HostsMapEntry) *list.Element {
